@@ -163,6 +163,54 @@ def run(ctx: Context, rep) -> None:
                        message="a possibly infinite stream is consumed "
                        "eagerly here" if "inf" in tags else
                        "eager consumer of a finite value")
+    rep.rule(
+        "C14.skip",
+        "no data-dependent skipping combinator (filter, filterfalse, "
+        "dropwhile, groupby, a comprehension / generator expression with an "
+        "`if`) is applied to a possibly infinite stream: the number of "
+        "source elements consumed per element delivered would be bounded "
+        "by the data, not by the configuration")
+    SKIPPERS = {"filter", "filterfalse", "dropwhile", "groupby", "unique",
+                "compress"}
+    n_skip = 0
+    for fn in scope:
+        cfg = ctx.cfg(fn)
+        init = {}
+        for p in fn.params():
+            ann = fn.param_annotation(p)
+            if ann is not None and any(
+                    k in ast.unparse(ann) for k in ("Iterable", "Iterator")) \
+                    and fn in helper_functions(ctx):
+                init[p] = frozenset({"inf"})
+        tf = TagFlow(cfg, init, hook=inf_hook(ctx, fn, {}),
+                     iter_elem=lambda t: frozenset(x for x in t if x != "inf"))
+        for node in cfg.nodes:
+            if node.ast is None or node.kind not in ("call", "stmt", "yield",
+                                                     "test"):
+                continue
+            cands = []
+            if node.kind == "call":
+                f = node.ast.func
+                nm = f.id if isinstance(f, ast.Name) else (
+                    f.attr if isinstance(f, ast.Attribute) else "")
+                if nm in SKIPPERS:
+                    cands = [(node.ast, a) for a in node.ast.args]
+            else:
+                for x in ast.walk(node.ast):
+                    if isinstance(x, (ast.GeneratorExp, ast.ListComp,
+                                      ast.SetComp, ast.DictComp)):
+                        for g in x.generators:
+                            if g.ifs:
+                                cands.append((x, g.iter))
+            for site, arg in cands:
+                n_skip += 1
+                tags = tf.tags_at(node, arg)
+                rep.ob("C14.skip", "inf" not in tags, loc=fn.loc(site),
+                       where=fn.qualname, construct=short(site, 80),
+                       message="skipping combinator over a possibly infinite "
+                       "stream" if "inf" in tags else
+                       "skipping combinator over a finite value", sample=False)
+    rep.info("C14.skip", f"{n_skip} skipping combinators inspected")
     rep.floor("C14.lazy", n_sinks, 8, "instances")
     rep.info("C14.lazy", f"{n_sources} possibly-infinite parameters, "
              f"{n_sinks} eager consumer arguments inspected in "
@@ -321,6 +369,9 @@ SELFTESTS = [
     dict(rule="C14.lazy", name="list-of-islice-twin", expect="silent", path=_IT,
          old="    for _, item in zip(range(buffer_size), iterable):\n        buffer.append(item)\n\n    # Iterate and keep filling the buffer.\n    r = initial_random_state()\n    while True:\n        try:\n            new_element = next(iterable)",
          new="    import itertools\n    for item in list(itertools.islice(iterable, buffer_size)):\n        buffer.append(item)\n\n    # Iterate and keep filling the buffer.\n    r = initial_random_state()\n    while True:\n        try:\n            new_element = next(iterable)"),
+    dict(rule="C14.skip", name="groupby-on-cycled-stream", expect="fire", path=_DI,
+         old="        return shard_paths_iterator\n\n    def as_numpy_iterator_concurrent(",
+         new="        if repeat:\n            shard_paths_iterator = (p for p, _ in itertools.groupby(shard_paths_iterator))\n        return shard_paths_iterator\n\n    def as_numpy_iterator_concurrent("),
     dict(rule="C14.bound", name="prefill-bounded-by-data", expect="fire", path=_LPF,
          old="            if i > 2 * self._threads:\n                break",
          new="            if i > 2 * self._threads and isinstance(element, StopSentinel):\n                break"),
